@@ -11,6 +11,9 @@
 (*    kinds, verified for each of the three identities;                    *)
 (*  - timestamps on both sides of (and >= 2 s away from) the two expiry    *)
 (*    edges;                                                               *)
+(*  - every proof of <= 3 (4) quotes over dates inside / before / after    *)
+(*    the window for the proof-level expiry function, and the two edges at *)
+(*    one second's distance in milliseconds;                               *)
 (*  - pairs of quotes: uptime lower/equal/higher/much higher x payment     *)
 (*    count lower/equal/higher x same/different node x which of the two is *)
 (*    the receiver x time gap.                                             *)
@@ -30,6 +33,14 @@ Deltas == IF MetricMode = "all"
           ELSE {-3700, -3602, -3598, -1800, 0, 60, 3600}
 \* time between the two quotes of a history pair
 Gaps == IF MetricMode = "all" THEN {2, 30, 100, 900} ELSE {2, 100}
+
+\* proof-level expiry (ProofOfPayment::has_expired): every proof of <= MaxPE quotes over dates on both sides of both
+\* edges, so that the expired quote stands first / in the middle / last / nowhere / more than once
+PDeltas == IF MetricMode = "all" THEN {-100000, -3602, -3598, -1800, 0, 3} ELSE {-3700, -1800, 60}
+MaxPE == IF MetricMode = "all" THEN 4 ELSE 3
+PExpShapes == UNION {[1..n -> PDeltas] : n \in 0..MaxPE}
+\* the edges at one second's distance, millisecond offsets from a now taken with nanoseconds
+FineMs == {-3601000, -3599000, -1000, 2000}
 
 Metrics == <<"crs", "max", "rpc", "live", "dens", "size">>
 MetricSets == IF MetricMode = "all" THEN SUBSET (1..6) ELSE {{}} \cup {{i} : i \in 1..6}
@@ -84,6 +95,8 @@ Cases == {[kind |-> "verify", mu |-> mu] : mu \in Muts}
    \cup  {[kind |-> "proof", shape |-> s, me |-> me] : s \in ProofShapes, me \in Identities}
    \cup  {[kind |-> "expiry", d |-> d] : d \in Deltas}
    \cup  {[kind |-> "history", h |-> h] : h \in Hist}
+   \cup  {[kind |-> "pexpiry", ds |-> s] : s \in PExpShapes}
+   \cup  {[kind |-> "fine", ms |-> x] : x \in FineMs}
 
 VARIABLE c
 Init == c \in Cases
@@ -123,6 +136,18 @@ SpecExpiry == c.kind = "expiry" =>
     \* the verdict is the same if up to 2 s pass between sampling "now" and the call
     /\ \A s \in {1, 2} : Expired(c.d - s, 0) = Expired(c.d, 0)
 
+\* proof-level expiry: exactly when some quote lies outside the window, whatever its position; stable while <= 2 s pass
+SpecProofExpiry == c.kind = "pexpiry" =>
+    LET want == \E i \in DOMAIN c.ds : Expired(c.ds[i], 0) IN
+    /\ C13_ProofExpiry(c.ds, want)
+    /\ want <=> (\E i \in DOMAIN c.ds : c.ds[i] < -Window \/ c.ds[i] > 0)
+    /\ (c.ds = <<>>) => ~want
+    /\ \A s \in {1, 2} : \A i \in DOMAIN c.ds : Expired(c.ds[i] - s, 0) = Expired(c.ds[i], 0)
+\* the fine edges agree with the whole-second rule and are stable for half a second
+SpecFine == c.kind = "fine" =>
+    /\ ExpiredMs(c.ms) = Expired(c.ms \div 1000, 0)
+    /\ ExpiredMs(c.ms - 500) = ExpiredMs(c.ms)
+
 \* history: the flag is required exactly for the "lower" steps; the statement's flag implies the implementation's
 SpecHistory == c.kind = "history" =>
     LET n == HNew(c.h) IN
@@ -141,6 +166,8 @@ CaseOut(x) ==
     ELSE IF x.kind = "proof" THEN
         [kind |-> "proof", shape |-> x.shape, me |-> x.me, exp |-> ProofVerifies(ProofOf(x.shape), x.me)]
     ELSE IF x.kind = "expiry" THEN [kind |-> "expiry", d |-> x.d, exp |-> Expired(x.d, 0)]
+    ELSE IF x.kind = "pexpiry" THEN [kind |-> "pexpiry", ds |-> x.ds, exp |-> (\E i \in DOMAIN x.ds : Expired(x.ds[i], 0))]
+    ELSE IF x.kind = "fine" THEN [kind |-> "fine", ms |-> x.ms, exp |-> ExpiredMs(x.ms)]
     ELSE [kind |-> "history", dl |-> x.h.dl, dr |-> x.h.dr, same |-> x.h.same, selfnewer |-> x.h.selfnewer, gap |-> x.h.gap,
           old |-> HOld, new |-> HNew(x.h), must |-> (x.h.same /\ HistInconsistent(HOld, HNew(x.h))), impl |-> ImplFlagged(HOld, HNew(x.h))]
 ASSUME IF "CASES" \in DOMAIN IOEnv
